@@ -458,6 +458,19 @@ func TestC05(t *testing.T) {
 	rec := ev.New(t, "C05")
 	rec.Rule("same generated churn + client histories as C03 (concurrent joins/leaves with concurrent single-writer clients, mixed backends). After the quiet period every remaining node's OWN store is listed (RangeKeys(0,0) on the provider the harness handed to the node) and every key found must hash into (predecessor, self] of the true ring; consequently no key is on two nodes. Non-trivial: at least two nodes hold data and at least one key transfer moved at least one key. Distinct = distinct plans.")
 	rec.Assume("true ring = members by observed outcome; rings that do not converge are C02's business (inconclusive)")
+	// scenario tier: writes into the range of a node whose leave attempts all fail
+	if p := writesDuringLeaveThatFails(); p != "" {
+		if len(p) > 13 && p[:13] == "precondition:" {
+			rec.Inconclusive("scenario-precondition")
+			t.Logf("failing-leave scenario: %s", p)
+		} else {
+			rec.Fail(t, "key-held-outside-ownership-range", map[string]any{"schedule": "ring {1<<44, 2<<44, 3<<44}; every Import from 2<<44 to 3<<44 fails after 60 ms on the wire; 2<<44 tries to leave (10 attempts, each keeping it in state Leaving for 60 ms) and gives up; meanwhile keys of (1<<44, 2<<44] are written through 1<<44 every 2 ms", "problem": p}, "%s", p)
+		}
+	} else {
+		rec.Case(true, "scenario:writes-during-leave-that-fails", func() any {
+			return map[string]any{"scenario": "writes into the range of a node while all its leave attempts fail at the hand-over; per-node range check after the quiet period"}
+		}, "scenario:writes-during-leave-that-fails")
+	}
 	// scenario tier: two joiners into one gap, the first request stalls at the predecessor probe
 	if p := twoJoinersOneStallsAtPredecessorProbe(); p != "" {
 		if len(p) > 13 && p[:13] == "precondition:" {
